@@ -632,7 +632,7 @@ theorem durable_lookup_linked (t0 : List Leaf) (h0 : Trie.SnapOk t0) (tmp : Opti
       (∀ k, MapSpec.IsLookup (MapSpec.Map.run (TrieBuf.baseGet t0) (opsOf acts)) k
         (TrieBuf.lookupAll (freshSt t) k .standard)) ∧
       MapSpec.IsEntries (MapSpec.Map.run (TrieBuf.baseGet t0) (opsOf acts)) (TrieBuf.entries (freshSt t)) ∧
-      (∀ q, Trie.fuzzyMatch q q = true →
+      (∀ q,
         MapSpec.IsFuzzyLookup Trie.fuzzyMatch (MapSpec.Map.run (TrieBuf.baseGet t0) (opsOf acts)) q
           (TrieBuf.lookupAll (freshSt t) q .fuzzyPartialPrefix)) := by
   obtain ⟨w, hr, hs⟩ := sim_run (sim_init h0 htmp) hrun
@@ -660,7 +660,7 @@ theorem durable_lookup_linked (t0 : List Leaf) (h0 : Trie.SnapOk t0) (tmp : Opti
         exact TrieBuf.lookup_agrees hi k
       · rw [← habs]
         exact TrieBuf.entries_agrees hi
-      · intro q _
+      · intro q
         rw [← habs]
         exact TrieBuf.fuzzy_agrees hi q
 
@@ -733,7 +733,7 @@ theorem durable_lookup_bytes_linked (info : TrieCodec.Info) (hinfo : TrieCodec.V
         MapSpec.IsEntries (MapSpec.Map.run (TrieBuf.baseGet (Trie.build es0)) (opsOf acts)) ents) ∧
       (∀ k st, C11.ValidKey k →
         TrieBuf.lookupAll (freshSt (Trie.build es)) k st = dedup (TrieCodec.lookupAll tr k st)) ∧
-      (∀ q, C11.ValidKey q → Trie.fuzzyMatch q q = true →
+      (∀ q, C11.ValidKey q →
         MapSpec.IsFuzzyLookup Trie.fuzzyMatch (MapSpec.Map.run (TrieBuf.baseGet (Trie.build es0)) (opsOf acts)) q
           (dedup (TrieCodec.lookupAll tr q .fuzzyPartialPrefix))) := by
   have h0 : Written (FitsInfo info) (Trie.build es0) := ⟨es0, hv0, hfit0, rfl⟩
@@ -761,8 +761,8 @@ theorem durable_lookup_bytes_linked (info : TrieCodec.Info) (hinfo : TrieCodec.V
     exact isEntries_perm hperm hent
   · intro k st hk
     rw [lookupAll_freshSt, hlook k st hk]
-  · intro q hq hqq
-    have := hfz q hqq
+  · intro q hq
+    have := hfz q
     rw [lookupAll_freshSt, ← hlook q .fuzzyPartialPrefix hq] at this
     exact this
 
